@@ -92,4 +92,37 @@ DecR(r, parts, msgs) ==
                           ELSE IF flag % 2 = 1 THEN DecR(r3, Append(parts, body), msgs)
                           ELSE DecR(r3, <<>>, Append(msgs, Append(parts, body)))
 Decode(r) == DecR(r, <<>>, <<>>)
+
+\* ---------------------------------------------------------------- several senders on one socket
+\* `seq` is an interleaving, at the granularity of whole elements, of the sequences qs[1..]: every
+\* element of every qs[s] occurs exactly once, the order within each qs[s] is kept.  Elements are
+\* records [k |-> tag, v |-> value]; the tag is compared first (values of different kinds are never
+\* compared).  This is what "read back identically" means when several tasks send on one connection
+\* (the kernel's shell handler and its housekeeping task both publish on every iopub connection): the
+\* unit that must survive is the message, in whatever order the senders got hold of the connection.
+SameItem(a, b) == a.k = b.k /\ a.v = b.v
+RECURSIVE IsMergeR(_, _, _, _)
+IsMergeR(seq, k, qs, pos) ==
+  IF k > Len(seq) THEN \A s \in DOMAIN qs : pos[s] > Len(qs[s])
+  ELSE \E s \in DOMAIN qs :
+         /\ pos[s] <= Len(qs[s])
+         /\ SameItem(qs[s][pos[s]], seq[k])
+         /\ IsMergeR(seq, k + 1, qs, [pos EXCEPT ![s] = @ + 1])
+IsMerge(seq, qs) == IsMergeR(seq, 1, qs, [s \in DOMAIN qs |-> 1])
+AsMsgItems(ms) == [j \in 1..Len(ms) |-> [k |-> "msg", v |-> ms[j]]]
+
+\* the octets `rest` are the concatenation of the byte strings encs[s][..] (the encodings of what
+\* sender s handed to the send routines, in its order; normalised), strings of different senders in
+\* any order: no write of one sender lands inside the encoding of another sender's item
+RECURSIVE WireIsMergeR(_, _, _)
+WireIsMergeR(rest, encs, pos) ==
+  IF \A s \in DOMAIN encs : pos[s] > Len(encs[s]) THEN rest = <<>>
+  ELSE \E s \in DOMAIN encs :
+         /\ pos[s] <= Len(encs[s])
+         /\ LET e == encs[s][pos[s]]
+                n == FLen(e)
+            IN /\ FLen(rest) >= n
+               /\ Norm(Take(rest, n)) = e
+               /\ WireIsMergeR(Drop(rest, n), encs, [pos EXCEPT ![s] = @ + 1])
+WireIsMerge(wire, encs) == WireIsMergeR(Norm(wire), encs, [s \in DOMAIN encs |-> 1])
 =============================================================================
